@@ -403,6 +403,130 @@ fn limited_signature(c: &LimitedCase) -> Option<&'static str> {
     signature(&c.bar)
 }
 
+// ------------------------------------------------------------------------------------------
+// a real terminal device: console::Term over a pseudo-terminal
+
+#[derive(Debug, Clone, Serialize, Deserialize)]
+pub struct PtyCase {
+    rows: u8,
+    cols: u8,
+    len: Option<u64>,
+    tpl: STpl,
+    ops: Vec<BOp>,
+}
+
+struct Pty {
+    master: std::fs::File,
+    slave: std::fs::File,
+}
+
+fn open_pty(rows: u16, cols: u16) -> Result<Pty, String> {
+    use std::os::fd::FromRawFd;
+    let (mut m, mut s) = (0, 0);
+    let ws = libc::winsize { ws_row: rows, ws_col: cols, ws_xpixel: 0, ws_ypixel: 0 };
+    let rc = unsafe { libc::openpty(&mut m, &mut s, std::ptr::null_mut(), std::ptr::null(), &ws) };
+    if rc != 0 {
+        return Err(format!("openpty failed: {}", std::io::Error::last_os_error()));
+    }
+    unsafe {
+        let fl = libc::fcntl(m, libc::F_GETFL);
+        libc::fcntl(m, libc::F_SETFL, fl | libc::O_NONBLOCK);
+        Ok(Pty { master: std::fs::File::from_raw_fd(m), slave: std::fs::File::from_raw_fd(s) })
+    }
+}
+
+fn drain(p: &mut Pty, grid: &mut crate::vterm::Grid) {
+    use std::io::Read;
+    let mut buf = [0u8; 8192];
+    let mut pending: Vec<u8> = vec![];
+    loop {
+        match p.master.read(&mut buf) {
+            Ok(0) => break,
+            Ok(n) => pending.extend_from_slice(&buf[..n]),
+            Err(_) => break, // EAGAIN: nothing more for now
+        }
+    }
+    // (the line discipline has turned \n into \r\n already; the grid treats \n as CR LF, which is the same)
+    grid.feed(&String::from_utf8_lossy(&pending));
+}
+
+/// The same statement through the path that real programs take: `ProgressDrawTarget::term` over
+/// `console::Term`, whose escape sequences and size queries go to a terminal device. The device is a
+/// pseudo-terminal with a generated window size; what arrives at its master side is interpreted by the
+/// harness's terminal emulator.
+fn run_pty(c: &PtyCase) -> CaseResult {
+    use std::io::Write;
+    let _clk = clock::Armed::new();
+    let (rows, cols) = (c.rows.max(2) as usize, c.cols.max(2) as usize);
+    let mut st = BarState::new(c.len, c.tpl.clone());
+    let mut v = Verdict::default();
+    if height_of(&st.frame(), cols) > rows {
+        v.label("initial_frame_too_tall");
+        return Ok(v);
+    }
+    let mut pty = open_pty(rows as u16, cols as u16).map_err(|e| Fail::new("harness", e))?;
+    let dup = |f: &std::fs::File| f.try_clone().map_err(|e| Fail::new("harness", e.to_string()));
+    let term = console::Term::read_write_pair(dup(&pty.slave)?, dup(&pty.slave)?);
+    let mut user_out = dup(&pty.slave)?;
+    let mut grid = crate::vterm::Grid::new(rows, cols);
+    let pb = ProgressBar::with_draw_target(c.len, ProgressDrawTarget::term(term, 100));
+    ensure!(!pb.is_hidden(), "harness", "the pseudo-terminal is not recognised as a terminal");
+    pb.set_style(c.tpl.style());
+    let mut log: Vec<String> = vec![];
+    let mut painted: Vec<String> = vec![];
+    let mut tall = false;
+    for (i, op) in c.ops.iter().enumerate() {
+        let next = apply_model(&st, op);
+        if height_of(&next.frame(), cols) > rows {
+            continue; // precondition of the statement: the frame fits the terminal height
+        }
+        // (a refresh interval passes between two operations: no ordinary draw is skipped)
+        clock::advance(Duration::from_millis(50));
+        let calls_before = grid.max_r;
+        let _ = calls_before;
+        catch(|| match op {
+            BOp::Suspend(lines) => pb.suspend(|| {
+                for l in lines {
+                    let _ = writeln!(user_out, "{l}");
+                }
+            }),
+            o => {
+                let dummy = VTerm::raw(1, 1);
+                exec(&pb, &dummy, o)
+            }
+        })
+        .map_err(|p| Fail::new("panic", format!("op #{i} {op:?} panicked: {p}")))?;
+        st = next;
+        match op {
+            BOp::Println(t) => log.extend(println_lines(t)),
+            BOp::Suspend(l) => log.extend(l.iter().cloned()),
+            _ => {}
+        }
+        drain(&mut pty, &mut grid);
+        // which frame is on screen: every op of this alphabet draws, except the two that only install a style
+        if !matches!(op, BOp::SetStyle(_) | BOp::Restyle(_)) {
+            painted = st.frame();
+        }
+        tall |= height_of(&painted, cols) > cols;
+        let ctx = format!("after op #{i} {op:?} (console::Term over a {rows}x{cols} pseudo-terminal, ops {:?})", &c.ops[..=i]);
+        check_screen(&grid.all_rows(), Some(grid.probe()), &log, &painted, cols, &ctx)?;
+    }
+    drop(pb);
+    v.nontrivial = tall;
+    v.label_if(tall, "frame_with_more_rows_than_the_window_has_columns");
+    v.label_if(log.iter().any(|l| console::measure_text_width(l) > cols), "log_wraps");
+    v.label("real_terminal_device");
+    Ok(v)
+}
+
+fn pty_strategy(tier: Tier) -> BoxedStrategy<PtyCase> {
+    let n = tier.pick(16, 30);
+    (20u8..=40, prop_oneof![3 => 3u8..10, 1 => 10u8..30])
+        .prop_flat_map(move |(rows, cols)| (Just(rows), Just(cols), proptest::option::weighted(0.8, 0u64..100), stpl_strategy(), proptest::collection::vec(bop_strategy(cols as usize), 0..n)))
+        .prop_map(|(rows, cols, len, tpl, ops)| PtyCase { rows, cols, len, tpl, ops })
+        .boxed()
+}
+
 pub fn property() -> Property {
     let w = default_workers();
     Property {
@@ -437,6 +561,17 @@ pub fn property() -> Property {
             run: run_limited,
             signature: limited_signature,
             essential: &["ordinary_draw_skipped", "forced_op_after_skipped_draw"],
+            workers: w,
+            decode: None,
+        }),
+        Box::new(Gen::<PtyCase> {
+            name: "real_term",
+            rule: "the same histories through ProgressDrawTarget::term over console::Term on a pseudo-terminal (openpty) whose window is 20..40 rows x 3..29 columns: the escape sequences and size queries of the real-terminal path reach a terminal device, what arrives at the master side is interpreted by the harness's emulator and compared, after every operation, with printed lines ++ current frame and the cursor clause; non-trivial = a frame with more rows than the window has columns was on screen",
+            strategy: pty_strategy,
+            cases: |t| t.pick(1_500, 100_000),
+            run: run_pty,
+            signature: |c| signature(&BarCase { rows: c.rows, cols: c.cols, len: c.len, tpl: c.tpl.clone(), ops: c.ops.clone(), wide: 0 }),
+            essential: &["real_terminal_device", "frame_with_more_rows_than_the_window_has_columns", "log_wraps"],
             workers: w,
             decode: None,
         })],
